@@ -851,6 +851,9 @@ class _Gen:
             other = self.epath("string", lv) if rng.random() < 0.3 else '"%s"' % rng.choice(
                 [s for s in STRINGS if '"' not in s])
             sides = [spath, other]
+            for n in (0, 1):
+                if rng.random() < 0.35:
+                    sides[n] = self.paren(sides[n])  # parentheses keep the type, also of a string
             rng.shuffle(sides)
             if k == "streq":
                 self.used.add("string_eq")
